@@ -107,6 +107,16 @@ CHECKS = {
              'power rounding). The default_scale table is a configuration table (enumerated, not symbolic).',
         technique=TECH + ' (QF_UFNRA), CrossHair for the integer counting logic, z3 FP for make_exact',
         design='3/C10'),
+    'C11': dict(
+        text='Bounded solver verdict: the real __call__ of all five derivative classes with method complex / multicomplex is '
+             'executed on a symbolic complex point (some imaginary part non-zero) and/or a function with a symbolic non-zero '
+             'imaginary value; all paths explored (z3 feasibility); every feasible path raises ValueError, a returning path is the '
+             'counterexample. Integer / string guards (multicomplex n>2, Residue order<=pole_order, unknown Limit path) confirmed by '
+             'CrossHair for unbounded values; length guards (fd_weights_all, fd_derivative, directionaldiff, too few steps, '
+             'wrong-size function output) over every length within the bound.',
+        note='Trusted: z3, CrossHair; numpy.iscomplex semantics (imaginary part non-zero); dimension <= 3, lengths <= 8.',
+        technique=TECH + '; CrossHair for integer/string guards',
+        design='3/C11'),
     'C13': dict(
         text='Bounded solver verdict on the real dea3 executed on symbolic arrays: for ALL real inputs abserr>=0 and '
              'abserr>=|result-v2| (hence honest against any X the inputs are within t of), element independence, inputs '
